@@ -87,7 +87,7 @@ def engine_check(prop, report, tier, seed, n_quick=160, n_thorough=6000, extra=N
     import suites_engine as S
     report.rule = ENGINE_RULE
     gv.theorem_obligations(report, f"GV/Props/{prop}.lean", f"GV.Props.{prop}", audit=True)
-    walks = S.run_walks(seed, tier, "engine", n_quick, n_thorough, **kw)
+    walks = S.run_walks(seed, tier, "engine", n_quick, n_thorough, plans=True, **kw)
     corr_ok = S.correspondence(report, walks, prop)
     mon_ok = S.monitor(report, walks, prop)
     if not corr_ok and mon_ok:
@@ -128,7 +128,11 @@ def check_C09(report, tier, seed):
     engine_check("C09", report, tier, seed)
     S.receive_maximum_resume_family(report, "C09")
     S.slow_start_family(report, "C09")
-def check_C10(report, tier, seed): engine_check("C10", report, tier, seed)
+def check_C10(report, tier, seed):
+    import suites_engine as S
+    engine_check("C10", report, tier, seed)
+    # in-flight publishes go first after a reconnect, also while the new Receive Maximum holds some of them back
+    S.receive_maximum_resume_family(report, "C10")
 def check_C11(report, tier, seed):
     import suites_engine as S
     engine_check("C11", report, tier, seed, adversarial=True)
